@@ -21,7 +21,8 @@ RULE = ("case = legal generated design + one injected structural defect (second 
         "driver of a net; extra connect closing a loop; read of a child's wire, write of an own InPort / a child's "
         "OutPort / a child's Wire; wrong assignment operator in update / update_ff; <<= to a slice or field) x 4 "
         "orderings (order.stmt, order.flip, order.hash); plus the converse: the uninjected design must elaborate for "
-        "every ordering; plus probes of known findings; non-trivial = the injected defect was rejected with an expected "
+        "every ordering; plus probes of known findings; plus (5%) one parametrised class elaborated over a seeded "
+        "history of parameter values in one interpreter, each design's legality decided by overlap arithmetic; non-trivial = the injected defect was rejected with an expected "
         "error class in every ordering; distinct = case digest")
 TIERS = {"quick": {"runs": 1280, "budget_s": 100, "chunk": 4},
          "thorough": {"runs": 200000, "budget_s": 1800, "chunk": 8}}
@@ -473,10 +474,88 @@ class Top_{uid}(Component):
 }
 
 
+HIST_SRC = '''
+from pymtl3 import *
+
+class Drv_{uid}(Component):
+  # the written bits depend on constructor parameters (closure names used as slice bounds / indices)
+  def construct(s, lo, hi, j):
+    s.in_ = InPort(Bits8)
+    s.out = [OutPort(Bits8) for _ in range(2)]
+    s.v = [Wire(Bits8) for _ in range(3)]
+    @update
+    def up_par():
+      for i in range(2):
+        s.out[i][lo:hi] @= s.in_[lo:hi]
+    @update
+    def up_fix():
+      for i in range(2):
+        s.out[i][4:8] @= s.in_[4:8]
+    @update
+    def up_vj():
+      s.v[j] @= s.in_
+    @update
+    def up_v1():
+      s.v[1] @= ~s.in_
+
+class Top_{uid}(Component):
+  def construct(s, plist):
+    s.in_ = InPort(Bits8)
+    s.d = [Drv_{uid}(*p) for p in plist]
+    for x in s.d:
+      x.in_ //= s.in_
+'''
+
+
+def gen_hist(c):
+  def one():
+    lo = c.randrange(0, 7)
+    return [lo, c.randrange(lo + 1, 9), c.choice([0, 2, 1])]
+  return {"history": [[one() for _ in range(c.randint(1, 2))] for _ in range(c.randint(2, 4))]}
+
+
+def run_hist(case, stats):
+  """ONE class source, a HISTORY of elaborations with different constructor parameters in one interpreter:
+  a design is legal iff for every instance [lo,hi) misses [4,8) and j != 1 - whatever was elaborated before"""
+  viols = []
+  D = _rng.Digest()
+  seams.set_hash_stream(case["orderings"][0][1])
+  ns, cls, _ = emit.build({"uid": case["uid"], "top": "Top"}, src=HIST_SRC.format(uid=case["uid"]))
+  for k, plist in enumerate(case["tmpl"]["history"]):
+    legal = all(not (lo < 8 and hi > 4) and j != 1 for lo, hi, j in plist)
+    try:
+      top = cls([tuple(p) for p in plist])
+      top.elaborate()
+      got = None
+    except Exception as e:
+      got = type(e).__name__
+    stats["elaborations"] += 1
+    D.add(k, got)
+    if legal and got is not None:
+      viols.append(C.viol("legal_design_rejected", {"step": k, "params": plist, "history": case["tmpl"]["history"][:k], "exc": got},
+                          shape="paramhist", exc=got))
+      break
+    if not legal and got is None:
+      viols.append(C.viol("illegal_design_accepted", {"step": k, "params": plist, "history": case["tmpl"]["history"][:k],
+                                                      "defect": "paramhist", "expected": ["MultiWriterError"]}, defect="paramhist"))
+      break
+    if not legal:
+      stats["rejections"] += 1
+      if got != "MultiWriterError":
+        viols.append(C.viol("wrong_error_class", {"step": k, "params": plist, "got": got, "defect": "paramhist"},
+                            defect="paramhist", got=got))
+        break
+  stats["fault_counts"]["family.paramhist"] = 1
+  return {"violations": viols, "digest": D.hex(), "nontrivial": stats["rejections"] > 0 and not viols, "stats": stats}
+
+
 def gen_case(R, tier):
   c = R("case")
   o = R("order")
   base = {"orderings": [[o.getrandbits(32), o.getrandbits(32)] for _ in range(4)], "uid": "e%x" % (R.seed & 0xffffff)}
+  if R("fam").random() < 0.05:
+    base.update(family="paramhist", tmpl=gen_hist(R("hist")))
+    return base
   if c.random() < 0.06:
     base.update(family="probe", name=c.choice(sorted(PROBES)))
     return base
@@ -512,6 +591,8 @@ def run_case(case):
   stats = {"fault_counts": {}, "elaborations": 0, "rejections": 0,
            "probes": {"rejected_in_every_ordering": 0}}
   viols = []
+  if case["family"] == "paramhist":
+    return run_hist(case, stats)
   if case["family"] == "probe":
     src = PROBES[case["name"]].format(uid=case["uid"])
     outcomes = []
@@ -577,6 +658,8 @@ def run_case(case):
 
 
 def sample(case):
+  if case["family"] == "paramhist":
+    return {"family": "paramhist", "history": case["tmpl"]["history"]}
   if case["family"] == "probe":
     return {"family": "probe", "name": case["name"], "source": PROBES[case["name"]].format(uid=case["uid"])}
   return {"kind": case["kind"], "accept": case["accept"], "orderings": case["orderings"],
@@ -584,6 +667,16 @@ def sample(case):
 
 
 def shrink(case):
+  if case["family"] == "paramhist":
+    h = case["tmpl"]["history"]
+    for i in range(len(h)):
+      if len(h) > 1:
+        yield dict(case, tmpl={"history": h[:i] + h[i + 1:]})
+    for i, pl in enumerate(h):
+      if len(pl) > 1:
+        for j in range(len(pl)):
+          yield dict(case, tmpl={"history": h[:i] + [pl[:j] + pl[j + 1:]] + h[i + 1:]})
+    return
   if case["family"] != "inject":
     return
   if len(case["orderings"]) > 1:
